@@ -484,7 +484,7 @@ func (w *worker) transports() {
 	// looks at its stop signal when the ticker fires outlives the request visibly
 	h.AddTransport(transport.SSE{KeepAlivePingInterval: 3 * time.Millisecond})
 	mm := transport.MultipartMixed{}
-	if len(w.name)%2 == 0 {
+	if w.name != "core_c0" {
 		mm.DeliveryTimeout = time.Hour
 	}
 	h.AddTransport(mm)
